@@ -247,6 +247,46 @@ def driver_tie(ck):
                 key["clause"] = clause
             ck.violation("C19 fails on the real binary (%s): %s" % (name, why), rp, key=key)
         shutil.rmtree(w, ignore_errors=True)
+    # "a time line saved and restored in the middle of a run continues identically", on the legacy driver: the run is stopped after every
+    # step (wall-clock limit) and restarted; every leg must continue where the previous one stopped
+    w = os.path.join(ck.scratch, "drv_legacy_chain")
+    shutil.rmtree(w, ignore_errors=True)
+    os.makedirs(w)
+    for f in os.listdir(conf):
+        shutil.copy(os.path.join(conf, f), w)
+    txt = open(os.path.join(conf, "legacy_min_step.param")).read().replace("radiative heating: true", "radiative heating: false")
+    txt = txt.replace("  minimum timestep: 0.01 Myr\n", "")
+    open(os.path.join(w, "free.param"), "w").write(txt)
+    open(os.path.join(w, "chain.param"), "w").write(txt + "\nRestartManager:\n  path: .\n  output interval: 1.e9 s\n  maximum number of backups: 0\n  maximum time: 0.000001 s\n")
+    rc, out = vf.sh([exe, "--rhd", "--params", "free.param", "--threads", "1", "--dirty"], cwd=w, timeout=600)
+    free = steps_of(out)
+    chain, legs, why = [], 0, None
+    for leg in range(2 * len(free) + 4):
+        rc, out = vf.sh([exe, "--rhd", "--params", "chain.param", "--threads", "1", "--dirty"] + (["--restart", "."] if leg else []), cwd=w, timeout=600)
+        st = steps_of(out)
+        legs += 1
+        if rc != 0:
+            why = "leg %d of the chain exits with status %d" % (leg, rc)
+            break
+        for x in st:
+            if chain and not why:
+                k0, t0, dt0 = chain[-1]
+                if x[0] != k0 + 1 or abs(x[1] - (t0 + dt0)) > 1e-4 * (t0 + dt0):
+                    why = ("after stop/restart number %d the run continues with hydro step %d at t = %r s, but the step before it was step %d from t = %r s with dt = %r s "
+                           "(the restored time line does not continue where the dumped one stopped)" % (leg, x[0], x[1], k0, t0, dt0))
+            chain.append(x)
+        if why or not st or "prematurely" not in out.lower():
+            break
+    n += len(chain)
+    if not free or len(chain) < 2:
+        ck.breaks.append("driver tie: the legacy stop/restart chain did not run (%d free steps, %d chain steps in %d legs)" % (len(free), len(chain), legs))
+    elif not why and len(chain) != len(free) and legs < 2 * len(free) + 4:
+        why = "stopped and restarted after every step the run takes %d steps, the uninterrupted run takes %d (same parameters)" % (len(chain), len(free))
+    if why:
+        ck.violation("C19 fails on the real binary (legacy RHD stopped by its wall-clock limit after every step and restarted, %d legs): %s" % (legs, why),
+                     {"driver_run": {"name": "legacy_chain"}}, key={"kind": "driver", "mode": "--rhd", "clause": "restart_chain"})
+    ck.coverage["driver_restart_chain"] = {"legs": legs, "steps": len(chain), "uninterrupted_steps": len(free)}
+    shutil.rmtree(w, ignore_errors=True)
     ck.coverage["driver_steps_checked"] = n
     return n
 
